@@ -161,8 +161,8 @@ EXECUTE_SRC = '''def _execute(operator: str, *operands):
     return dt.DerivedValue(dt.Formula(operator, list(values)))'''
 
 WRAP_SRC = '''def wrap_in_experimental_value(operand):
-    if isinstance(operand, Real):
-        return dt.Constant(operand)
+    if isinstance(operand, (Real, np.bool_)):
+        return dt.Constant(int(operand) if isinstance(operand, Integral) else float(operand))
     if isinstance(operand, dt.ExperimentalValue):
         return operand
     if isinstance(operand, tuple) and len(operand) == 2:
